@@ -90,7 +90,7 @@ def draw(rng, alg):
     if kind in ("small", "ties"):
         k = rng.choice([1, 2, 2, 3, 3, 4])
         n = rng.randint(1, {1: 9, 2: 9, 3: 9, 4: 8}[k])
-        vals = gen.part_values(rng, rng.choice(["small", "ties", "zeros", "powers", "onehuge", "equal"]) if kind == "small" else "ties", n, k)
+        vals = gen.part_values(rng, rng.choice(["small", "ties", "zeros", "powers", "onehuge", "equal", "bignear"]) if kind == "small" else "ties", n, k)
         vals = gen.arrange(rng, vals, rng.choice(gen.ORDERS))
         case.update(k=k, values=vals, cls=kind)
     elif kind == "planted":
